@@ -198,6 +198,31 @@ def check_wallet(case, ctx):
             raise Violation("C06/export/not-json", "export_wasabi over an earlier export does not parse: %r" % (e,))
     finally:
         shutil.rmtree(tmpd, ignore_errors=True)
+    # the caller owns the record it was handed: after it empties / rewrites that record in place (and filters it the way
+    # the CLI does), the same request on the same wallet must still produce the complete, correct record
+    if records:
+        data0, (account0, interval0) = records[0], calls[0]
+        interval0 = [int(interval0[0]), int(interval0[1])]
+        try:
+            import btc_hd_wallet.__main__ as M_
+            call(M_.paranoia_mode, data0)
+        except Exception:  # noqa: BLE001
+            pass
+        for sec_name in ("BIP44", "BIP49", "BIP84"):
+            blk = data0.get(sec_name) if isinstance(data0, dict) else None
+            if isinstance(blk, dict):
+                if isinstance(blk.get("groups"), list):
+                    del blk["groups"][:]
+                if isinstance(blk.get("account_extended_keys"), dict):
+                    blk["account_extended_keys"]["pub"] = "edited"
+        if isinstance(data0, dict):
+            data0.pop("MASTER", None)
+            data0.pop("BIP85", None)
+        st_, again = call(w.generate, account0, tuple(interval0))
+        if st_ == "exc":
+            raise Violation("C06/generate/raised", "generate() repeated after the caller edited the earlier record raised %r" % (again,))
+        judge_record(again, rm, testnet, account0, interval0, echo, "generate(account=%d, interval=%r) repeated after the caller "
+                     "edited the record returned by the first call in place" % (account0, interval0))
     # Wasabi export
     st_, wj = call(w.wasabi_json)
     if st_ == "exc":
